@@ -7,7 +7,10 @@ IDS="$@"
 [ -z "$IDS" ] && IDS="C01 C02 C03 C04 C05 C06 C07 C08 C09 C10 C11 C12 C13 C14 C15 C16 C17 C18 C19 C20"
 git -C /repo diff --quiet || { echo "repo working tree not clean"; exit 2; }
 git -C /repo apply "$P" || { echo "patch does not apply"; exit 2; }
-trap 'git -C /repo checkout -- . ; git -C /repo clean -fdq' EXIT INT TERM
+# evidence / replay files written while the patch is applied do not describe /repo: keep the real ones aside
+SAVE=$(mktemp -d /tmp/verif-evsave.XXXXXX)
+cp -a "$V/evidence" "$SAVE/evidence"; [ -d "$V/replays" ] && cp -a "$V/replays" "$SAVE/replays"
+trap 'git -C /repo checkout -- . ; git -C /repo clean -fdq; rm -rf "$V/evidence" "$V/replays"; mv "$SAVE/evidence" "$V/evidence"; [ -d "$SAVE/replays" ] && mv "$SAVE/replays" "$V/replays"; rm -rf "$SAVE"' EXIT INT TERM
 for id in $IDS; do
   out=$("$V/check" "$id" ${TIER:-quick} 2>&1); rc=$?
   sigs=$(echo "$out" | grep "signature:" | sed 's/ *signature: //' | tr '\n' ';' | cut -c1-300)
